@@ -57,7 +57,7 @@ func zzFinWriteRecord(c *Conn, typ recordType, data []byte) (int, error) {
 //
 //verif:property C08
 //verif:expect-reach end accepted rejected
-//verif:bound role in {GMSSL client, GMSSL server, TLS 1.2 client, TLS 1.2 server}; transcript of two 3-byte symbolic messages; master secret 48 symbolic bytes; peer verify_data of 11, 12 or 13 symbolic bytes, another message type, or a closed connection; transcript hash and PRF arbitrary functions (recording objects inside a real finishedHash)
+//verif:bound role in {GMSSL client, GMSSL server, TLS 1.2 client, TLS 1.2 server}; transcript of two 3-byte symbolic messages; master secret 48 symbolic bytes; peer verify_data of 11, 12 or 13 symbolic bytes, another message type, or a closed connection; the caller keeps the value (full handshake) or passes nil (resumed handshake); transcript hash and PRF arbitrary functions (recording objects inside a real finishedHash)
 //verif:outside the PRF and hash themselves; the SSL 3.0 Finished; NPN's NextProtocol message
 //verif:stub (*github.com/tjfoc/gmsm/gmtls.Conn).readRecord zzFinReadRecord
 //verif:stub (*github.com/tjfoc/gmsm/gmtls.Conn).readHandshake zzFinReadHandshake
@@ -111,6 +111,11 @@ func zzH_c08_finished() {
 		zzFin.events = nil
 	}
 	out := make([]byte, 12)
+	// in a resumed handshake the side that speaks second passes nil: it does not keep the value
+	outNil := vChoice("outNil", 2) == 1
+	if outNil {
+		out = nil
+	}
 	var err error
 	read := func() {
 		switch role {
@@ -158,7 +163,7 @@ func zzH_c08_finished() {
 		}
 		vAssert("peer-finished-accepted-iff-verify-data-is-prf-of-transcript-under-peer-label", (err == nil) == good)
 		vAssert("change-cipher-spec-awaited-before-finished", len(zzFin.events) >= 1 && zzFin.events[0] == "ccs-awaited")
-		if err == nil {
+		if err == nil && !outNil {
 			vAssert("verify-data-handed-back", bytes.Equal(out, want))
 		}
 	} else {
@@ -171,7 +176,9 @@ func zzH_c08_finished() {
 		if len(zzFin.wrote) == 2 && len(zzFin.wrote[1]) == 17 {
 			vAssert("own-finished-is-prf-of-transcript-under-own-label", bytes.Equal(zzFin.wrote[1][5:], want))
 		}
-		vAssert("verify-data-handed-back", bytes.Equal(out, want))
+		if !outNil {
+			vAssert("verify-data-handed-back", bytes.Equal(out, want))
+		}
 		vReach("accepted")
 		vReach("rejected")
 	}
